@@ -42,7 +42,7 @@ PA18 = "src/jaqalpaq/core/parameter.py"
 VARIANTS += [
     # reverting fix b0b9c6e
     fire("c18-validate-int-converts-value",
-         [(PA18, "            if (isinstance(value, float) and value.is_integer()) or isinstance(", "            if (isinstance(value, float) and int(value) == value) or isinstance(")],
+         [(PA18, "                isinstance(value, Real) and value.is_integer()\n", "                isinstance(value, Real) and int(value) == value\n")],
          ("C18.4", "Parameter.validate:int-branch-total"), ("C18",)),
 ]
 UN3 = "src/jaqalpaq/emulator/unitary.py"
